@@ -2,7 +2,7 @@
    operator: which (operator, literal kind) pairs are unsupported (C06), what
    null/bool tests mean (C10), numeric / string / version relations (C03 C04
    C09), membership (C08), when a comparison is undecided (C16). *)
-From Rules Require Import Ops.
+From Rules Require Import Ops ValuesProps FloatProofs.
 Open Scope Z_scope.
 
 (* the table of the C06 statement *)
@@ -98,8 +98,12 @@ Lemma int_apply_int op z n :
 Proof. intros Hop l [-> | [-> | ->]]; destruct op; try discriminate Hop; reflexivity. Qed.
 
 Lemma int_apply_float op f n :
-  is_rel op -> op_apply lower OpInt op (GF64 f) (RInt n) = Ok (rel_holds op (f64_compare_Z f n), None).
-Proof. intros Hop; destruct op; try discriminate Hop; reflexivity. Qed.
+  is_rel op -> min_int64 <= n <= max_int64 ->
+  op_apply lower OpInt op (GF64 f) (RInt n) = Ok (rel_holds op (f64_compare_Z f n), None).
+Proof.
+  intros Hop Hn. rewrite <- (compare_float_to_int_exact f n Hn).
+  destruct op; try discriminate Hop; reflexivity.
+Qed.
 
 Lemma float_apply_float op f d :
   is_rel op -> op_apply lower OpFloat op (GF64 f) (RF64 d) = Ok (rel_holds op (f64_compare f d), None).
